@@ -101,6 +101,10 @@ package backend
 //@        && called("backend.contains") && !result("backend.contains", 0) && old(pastMarker) && !old(pastMax) \
 //@        && strings.HasPrefix(key0, prefix) && (delimiter == "" || !strings.Contains(strings.TrimPrefix(key0, prefix), delimiter)) :: \
 //@        ensures called("dynamic")
+// completeness: the names to skip are entries of the bucket directory itself (a key with such a name further down is a key),
+// and a file never ends the walk of its directory (fs.SkipDir returned for a file skips its remaining siblings)
+//@   at-call backend.contains {C07} [the-skip-list-names-entries-of-the-bucket-itself] requires $0 == in0
+//@   ensures {C07} [a-file-never-cuts-its-directory-short] ownDecision && ret0 == fs.SkipDir ==> d.IsDir()
 // completeness: only the bucket root itself (".") is passed over without being looked at; the directory a walk starts from
 // when the prefix names one is a candidate key like any other
 //@   at-return {C07} [only-the-bucket-root-is-passed-over-unexamined] when ownDecision && ncalls("context.Context.Err") == 1 && ret0 == nil && in0 != "." :: ensures called("backend.contains")
